@@ -71,9 +71,16 @@ def _count(out, res):
 
 def _file_values(cfg, img):
     """The physical pixel values of the file (stored values after the cast to the file's dtype, times BSCALE)."""
-    dtype = np.float32 if cfg["bitpix"] == -32 else np.float64
+    dtype = bw.file_dtype(cfg)
     bscale = cfg.get("bscale") or 1.0
-    return (img / bscale).astype(dtype).astype(np.float64) * bscale
+    raw = img / bscale
+    if cfg["bitpix"] > 0:
+        info = np.iinfo(dtype)
+        ok = np.isfinite(raw) & (raw == np.round(raw)) & (raw >= info.min) & (raw <= info.max)
+        stored = np.where(ok, raw, 0).astype(dtype).astype(np.float64)
+        stored[~ok] = np.nan          # not representable: makes _exact() fail, the relation is then skipped
+        return stored * bscale
+    return raw.astype(dtype).astype(np.float64) * bscale
 
 
 def _exact(cfg, img):
@@ -276,6 +283,10 @@ def _case_body(ch, out, cfg, content, hot, line, outmode, img, vals, fn, files):
         cfg2["rows"] = max(2, cfg["rows"] + (3, -2, 7, 0)[ch.draw("rw_rows", 4)])
         cfg2["cols"] = max(2, cfg["cols"] + (-1, 2, 0, 5)[ch.draw("rw_cols", 4)])
         cfg2["bscale"] = (None, 2.0, -2.0, 0.5)[ch.draw("rw_bscale", 4)]
+        if cfg["bitpix"] > 0:
+            # integer pixels: the stored values must stay whole numbers, so BSCALE stays one quantum of the grid (its
+            # sign and a factor of two may change)
+            cfg2["bscale"] = cfg["bscale"] * (1.0, 1.0, -1.0, 0.5)[ch.draw("rw_bscale_int", 4)]
         cfg2["naxis"] = (2, 3, 4)[ch.draw("rw_naxis", 3)]
         cfg2["nplanes"] = 2 if cfg2["naxis"] > 2 else 1
         cfg2["cube_index"] = ch.draw("rw_cube", cfg2["nplanes"])
